@@ -123,7 +123,12 @@ def truth(I, v):
             return blen(v.t) > 0
         if v.kind == "opaque":
             h = I.E.opaque_truth.get(v.elem)
-            return h(I, v) if h else True
+            if h:
+                return h(I, v)
+            if v.elem in getattr(I.E, "opaque_objects", ()):         # declared by the contract to stand for plain objects (always true)
+                return True
+            # an abstract value of unknown kind may be a container or a text: whether it is "true" is an unknown of its own
+            return z3.Function(f"truth!{v.elem}", v.t.sort(), z3.BoolSort())(v.t)
     if isinstance(v, SObj):
         for name in ("__bool__", "__len__"):
             m = v.cls.find_method(name) if isinstance(v.cls, ClassInfo) else None
